@@ -46,6 +46,8 @@ def run(ctx, chk, tier="quick"):
                        "splint treats the spline as zero outside its data interval (scipy documentation)"]
     from ..memo import memo_keys
     memo_keys(ctx, chk, "C14.O1", ("spline", "specific_yield"), "spline")
+    from ..perm import sorted_values_regathered
+    sorted_values_regathered(ctx, chk, "C14.O2", ('spline', 'specific_yield'), "spline")
     mod = ctx.repo.module("spline")
     tck_attr = "_tck"
     # ---------------- O1
@@ -72,23 +74,110 @@ def run(ctx, chk, tier="quick"):
             return None
 
         sp, kp = through_param(sarg) if sarg is not None else None, through_param(karg) if karg is not None else None
-        # x, y order: x, y = zip(*points); splrep(x, y, ...)
-        xy_ok = False
-        if len(rep.args) >= 2 and isinstance(rep.args[0], ast.Name) and isinstance(rep.args[1], ast.Name):
-            d0 = fflow.unique_def_node(rep.args[0])
-            d1 = fflow.unique_def_node(rep.args[1])
-            if d0 is not None and d0 == d1:
-                st = fflow.cfg.stmt_of.get(d0)
-                if isinstance(st, ast.Assign) and isinstance(st.targets[0], ast.Tuple) and len(st.targets[0].elts) == 2:
-                    t0, t1 = st.targets[0].elts
-                    v = st.value
-                    if isinstance(t0, ast.Name) and isinstance(t1, ast.Name) and t0.id == rep.args[0].id and t1.id == rep.args[1].id \
-                            and isinstance(v, ast.Call) and isinstance(v.func, ast.Name) and v.func.id == "zip" \
-                            and len(v.args) == 1 and isinstance(v.args[0], ast.Starred):
-                        xy_ok = True
-        chk.ob("C14.O1", xy_ok, where_of(fp, rep), "splrep(%s)" % ", ".join(ast.unparse(a) for a in rep.args),
-               "splrep(x, y) with (x, y) unzipped from the (level, value) points in that order",
-               key="Spline.from_points|xy-order", why="swapped axes fit level as a function of value")
+        # x, y order and completeness: both operands of splrep are traced back to `zip(*points)`; three outcomes:
+        # (position 0, position 1) of the same unzip with every point kept -> holds; swapped positions, or a subset of
+        # the points (mask / slice / unique / delete) on the way -> the construct is named; anything else -> not decided.
+        IDENT = ("asarray", "array", "asanyarray", "ascontiguousarray", "list", "tuple", "float64", "copy")
+
+        def trace(node, depth=0):
+            """-> (position in zip(*P) or None, dump of P or None, [subset nodes], readable)"""
+            subs = []
+            cur = node
+            for _h in range(12):
+                if isinstance(cur, ast.Call) and len(cur.args) >= 1 and (
+                        (isinstance(cur.func, ast.Name) and cur.func.id in IDENT) or
+                        (isinstance(cur.func, ast.Attribute) and cur.func.attr in IDENT and isinstance(cur.func.value, ast.Name)
+                         and cur.func.value.id in ("np", "numpy"))):
+                    cur = cur.args[0]
+                    continue
+                if isinstance(cur, ast.Call) and isinstance(cur.func, ast.Attribute) and cur.func.attr in ("copy", "astype", "tolist") :
+                    cur = cur.func.value
+                    continue
+                if isinstance(cur, ast.Call) and isinstance(cur.func, ast.Attribute) and cur.func.attr in ("unique", "delete", "compress", "extract", "take", "trim_zeros") \
+                        and cur.args:
+                    subs.append(cur)
+                    cur = cur.args[-1] if cur.func.attr in ("compress", "extract") else cur.args[0]
+                    continue
+                if isinstance(cur, ast.Subscript) and not getattr(cur, "_synthetic", False):
+                    sl = cur.slice
+                    full = isinstance(sl, ast.Slice) and sl.lower is None and sl.upper is None and sl.step is None
+                    if isinstance(sl, ast.Constant) and isinstance(sl.value, int) and isinstance(cur.value, ast.Call) \
+                            and isinstance(cur.value.func, ast.Name) and cur.value.func.id in ("list", "tuple") and len(cur.value.args) == 1 \
+                            and isinstance(cur.value.args[0], ast.Call) and isinstance(cur.value.args[0].func, ast.Name) and cur.value.args[0].func.id == "zip":
+                        z = cur.value.args[0]
+                        if len(z.args) == 1 and isinstance(z.args[0], ast.Starred):
+                            return sl.value, ast.dump(z.args[0].value), subs, True
+                    if not full:
+                        subs.append(cur)
+                    cur = cur.value
+                    continue
+                if isinstance(cur, ast.Subscript) and getattr(cur, "_synthetic", False) and isinstance(cur.slice, ast.Constant):
+                    # k-th target of `a, b = X`
+                    k, src = cur.slice.value, cur.value
+                    if isinstance(src, ast.Name):
+                        v = fflow.def_value(src)
+                        if v is None:
+                            return None, None, subs, False
+                        src = v
+                    return unzip_pos(src, k, subs)
+                if isinstance(cur, ast.Name):
+                    if fflow.is_param(cur):
+                        return None, None, subs, False
+                    v = fflow.def_value(cur)
+                    if v is not None:
+                        cur = v
+                        continue
+                    d = fflow.unique_def_node(cur)
+                    st = fflow.cfg.stmt_of.get(d) if d is not None else None
+                    if isinstance(st, ast.Assign) and len(st.targets) == 1 and isinstance(st.targets[0], (ast.Tuple, ast.List)):
+                        names = [t.id if isinstance(t, ast.Name) else None for t in st.targets[0].elts]
+                        if cur.id in names and names.count(cur.id) == 1:
+                            return unzip_pos(st.value, names.index(cur.id), subs)
+                    return None, None, subs, False
+                return None, None, subs, False
+            return None, None, subs, False
+
+        def unzip_pos(v, k, subs):
+            if isinstance(v, ast.Call) and isinstance(v.func, ast.Name) and v.func.id in ("list", "tuple", "map") and v.args:
+                if v.func.id == "map" and len(v.args) == 2:
+                    v = v.args[1]
+                elif v.func.id != "map" and len(v.args) == 1:
+                    v = v.args[0]
+            if isinstance(v, (ast.GeneratorExp, ast.ListComp)) and len(v.generators) == 1 and not v.generators[0].ifs \
+                    and isinstance(v.generators[0].target, ast.Name):
+                # (WRAP(c) for c in zip(*P)): WRAP must keep every element of the column
+                pos, src, s2, ok = trace(v.elt)
+                tgt = v.generators[0].target.id
+                inner = v.elt
+                for _h in range(6):
+                    if isinstance(inner, ast.Call) and inner.args:
+                        inner = inner.args[0]
+                if not (isinstance(inner, ast.Name) and inner.id == tgt):
+                    return None, None, subs, False
+                subs = subs + [n for n in ast.walk(v.elt) if isinstance(n, ast.Subscript)]
+                v = v.generators[0].iter
+            if isinstance(v, ast.Call) and isinstance(v.func, ast.Name) and v.func.id == "zip" and len(v.args) == 1 and isinstance(v.args[0], ast.Starred):
+                return k, ast.dump(fflow.expand(v.args[0].value)), subs, True
+            return None, None, subs, False
+
+        if len(rep.args) >= 2:
+            p0, s0, sub0, r0 = trace(rep.args[0])
+            p1, s1, sub1, r1 = trace(rep.args[1])
+            shown = "splrep(%s)" % ", ".join(ast.unparse(a) for a in rep.args)
+            dropped = sub0 + sub1
+            if dropped:
+                d0_ = dropped[0]
+                chk.ob("C14.O1", False, where_of(fp, d0_), "%s: the points reaching the fit are %s, a subset of the points given" % (shown, ast.unparse(d0_)[:60]),
+                       "every (level, value) point given reaches splrep: an interpolating spline passes only through the points it is fitted to",
+                       key="Spline.from_points|all-points", why="a knot that is dropped (by a mask, a tolerance test, unique, a slice) is not interpolated, and if it is an end knot the constant range moves")
+            elif r0 and r1 and s0 == s1 and (p0, p1) in ((0, 1), (1, 0)):
+                chk.ob("C14.O1", (p0, p1) == (0, 1), where_of(fp, rep), shown,
+                       "splrep(x, y) with (x, y) unzipped from the (level, value) points in that order",
+                       key="Spline.from_points|xy-order", why="swapped axes fit level as a function of value")
+            else:
+                chk.indeterminate("C14.O1", where_of(fp, rep), "%s: operands not traced back to zip(*points)" % shown)
+        else:
+            chk.indeterminate("C14.O1", where_of(fp, rep), "splrep is not called with two positional operands")
         # call site in SplineSpecificYield
         init = ctx.func("specific_yield.SplineSpecificYield.__init__")
         calls = [c for c in ast.walk(init.node) if isinstance(c, ast.Call) and isinstance(c.func, ast.Attribute) and c.func.attr == "from_points"]
